@@ -261,6 +261,7 @@ pub const P_FIRST_T_SYNDROMES_ZERO: u32 = 12;
 pub const P_WITHIN_RADIUS_PIXEL_STAGE: u32 = 13;
 pub const P_DECODE_STR_OK_NONASCII: u32 = 14;
 pub const P_ECI_SEEN: u32 = 15;
+pub const P_REF_MODEL_PREMISE: u32 = 16;
 pub const PROBE_NAMES: &[&str] = &[
     "ec_region_error_in_block_ge1_corrected",
     "all_blocks_at_exactly_t",
@@ -278,6 +279,7 @@ pub const PROBE_NAMES: &[&str] = &[
     "within_radius_via_pixel_stage",
     "decode_str_ok_with_non_ascii_output",
     "eci_stream_decoded",
+    "reference_decoder_found_other_codeword_within_radius",
 ];
 
 #[derive(Clone, Debug)]
@@ -299,6 +301,10 @@ pub struct Outcome {
     pub block_damage: Vec<u8>,
     pub regions: u8,
     pub premise_c03: bool,
+    /// C03 premise established by the reference model instead of by construction: the received word lies within
+    /// floor(k/2) substitutions per block of this codeword vector (checked with the crate's encode_error), which
+    /// is NOT the word that was sent (or nothing was sent: fabricated input). (data codewords, word)
+    pub ref_word: Option<(usize, Vec<u8>)>,
     pub probes: u32,
     pub other_events: Vec<String>,
 }
@@ -486,6 +492,7 @@ fn execute_one(ctx: &Ctx, trace: &Trace, opts: &ExecOpts) -> Outcome {
         block_damage: Vec::new(),
         regions: 0,
         premise_c03: false,
+        ref_word: None,
         probes: 0,
         other_events: Vec::new(),
     };
@@ -897,6 +904,19 @@ fn execute_one(ctx: &Ctx, trace: &Trace, opts: &ExecOpts) -> Outcome {
         }
     }
 
+    // ---------------- C03 end-to-end clause under the reference model's premise ----------------
+    if let (Some((nd, c2)), Some(w)) = (&o.ref_word, &whole) {
+        if o.parse == ParseClass::Ok && !staged_panicked {
+            if let Ok(expected) = guard(|| decode_data(&c2[..*nd])) {
+                let expected: Result<Vec<u8>, DecodingError> = expected.map_err(DecodingError::DataDecoding);
+                if *w != expected {
+                    let detail = format!("whole-symbol decode gave {} but the codeword vector within the radius (reference decoder) decodes to {}", short_res(w), short_res(&expected));
+                    o.violations.push(Violation { prop: "C03", class: "ref_model_e2e_wrong_message".into(), detail });
+                }
+            }
+        }
+    }
+
     // ---------------- C03 end-to-end clause ----------------
     if let Some(s) = sinfo {
         if o.premise_c03 && prop == "C03" {
@@ -978,8 +998,74 @@ fn consumer_ec_and_data(
         }
         measured_within = dist.iter().all(|d| *d <= rs.t());
     }
+    // Reference model (refinement oracle): where the premise of C03 is not given by construction - the word is far
+    // from what was sent, or nothing was sent at all - a textbook bounded-distance decoder decides whether the
+    // received word lies within floor(k/2) substitutions per block of SOME codeword vector c'. If it does, C03 with
+    // c' as "the original" demands that decode_error restores exactly c'. The model is not believed as it stands:
+    // c' must be a codeword by the crate's own encode_error, and the distances are counted here.
+    let mut ref_word: Option<Vec<u8>> = None;
+    if !measured_within && cw.len() == rs.n_total() && ctx.gf_ok[rs.idx] && std::env::var_os("DMSIM_NO_REF_MODEL").is_none() {
+        let mut cand = cw.clone();
+        let mut ok = true;
+        for b in 0..rs.blocks {
+            let pos = rs.block_positions(b);
+            let poly: Vec<u8> = pos.iter().map(|p| cw[*p]).collect();
+            match ctx.gf.bd_decode_block(&poly, rs.k) {
+                Some(fixed) => {
+                    let d = fixed.iter().zip(poly.iter()).filter(|(a, b)| a != b).count();
+                    if d > rs.t() {
+                        ok = false;
+                        break;
+                    }
+                    for (i, p) in pos.iter().enumerate() {
+                        cand[*p] = fixed[i];
+                    }
+                }
+                None => {
+                    ok = false;
+                    break;
+                }
+            }
+        }
+        if ok {
+            if let Ok(ec) = guard(|| encode_error(&cand[..rs.n_data], rs.size)) {
+                if ec[..] == cand[rs.n_data..] {
+                    set_probe(o, P_REF_MODEL_PREMISE);
+                    o.ref_word = Some((rs.n_data, cand.clone()));
+                    ref_word = Some(cand);
+                }
+            }
+        }
+    }
     let mut rx = cw.clone();
     let res = guard(|| decode_error(&mut rx, rs.size));
+    if let Some(c2) = &ref_word {
+        match &res {
+            Err(p) => o.violations.push(Violation {
+                prop: "C03",
+                class: format!("ref_model_panic@{}", p.loc),
+                detail: format!("decode_error panicked on a word within the radius of a codeword vector (found by the reference decoder): {}", p.msg),
+            }),
+            Ok(Err(e)) => o.violations.push(Violation {
+                prop: "C03",
+                class: format!("ref_model_err:{:?}", e),
+                detail: format!("{}: the received word lies within floor(k/2) substitutions per block of a codeword vector (reference decoder, confirmed with encode_error) but decode_error reports failure", rs.name),
+            }),
+            Ok(Ok(())) => {
+                if rx != *c2 {
+                    o.violations.push(Violation {
+                        prop: "C03",
+                        class: "ref_model_wrong_word".into(),
+                        detail: format!(
+                            "{}: the received word lies within floor(k/2) substitutions per block of a codeword vector (reference decoder, confirmed with encode_error) but decode_error left a word that differs from it in {} codeword(s)",
+                            rs.name,
+                            rx.iter().zip(c2.iter()).filter(|(a, b)| a != b).count()
+                        ),
+                    });
+                }
+            }
+        }
+    }
     // the same received word once more in a buffer that does not start on an 8-byte boundary (a sub-slice of a larger
     // buffer): the outcome must not depend on where the codewords lie
     if cw.len() >= 8 {
